@@ -213,8 +213,13 @@ def robustH : Handler := fun inp impl => do
   let spec := out != "panic" && (out != "cfg" || (glob ≥ 1 && run != "panic"))
   let noEq := env.any (fun e => !(S e).contains '=')
   let weird := noEq || env.any (fun e => (S e).head? == some '=') || props.isSome
+    || (inp.getObjValAs? String "focus").toOption.isSome
   let tag :=
-    if out == "panic" then (if noEq then "panic-env-entry-without-eq" else "panic-other")
+    if out == "panic" then
+      (if noEq && containsSub (S msg) (S "[1] with length 1") then "panic-env-entry-without-eq"
+       else match (inp.getObjValAs? String "focus_kind").toOption with
+         | some k => s!"panic-on-degenerate-{k}-value"
+         | none => "panic-other")
     else if out == "cfg" then
       (if glob ≤ 0 then "accepted-glob-cache-size-below-1" else if run == "panic" then "accepted-but-glob-cache-panics" else "cfg")
     else if globErr then "err-glob-cache-size"
